@@ -546,13 +546,17 @@ def lower_view_fn(toks, needle, fname, second, recv_mut):
 
 
 class LowerSliceViews:
-    """reinterpreting views of src/lib.rs: one slice argument, guards, pure `let`s, raw pointers, the returned views"""
+    """reinterpreting views of src/lib.rs: one slice argument (or the receiver `&self` / `&mut self`), guards, pure
+    `let`s, raw pointers, the returned views"""
     def __init__(self, arg_name, arg_ty):
         self.arg = arg_name
         t = arg_ty.replace(" ", "")
         self.recv_mut = t.startswith("&mut")
         inner = t[4:] if self.recv_mut else t[1:]
-        if inner == "[T]":
+        self.is_self = arg_name == "self"
+        if self.is_self and inner == "Self":
+            self.ext, self.estride = ".n", "(.lit 1)"
+        elif inner == "[T]":
             self.ext, self.estride = ".k", "(.lit 1)"
         elif inner == "[GenericArray<T,N>]":
             self.ext, self.estride = "(.mul .k .n)", ".n"
@@ -611,6 +615,12 @@ class LowerSliceViews:
             return self.ptrs[ast[1]]
         if k == "method" and ast[2] in ("as_ptr", "as_mut_ptr") and not ast[3] and ast[1] == ("path", self.arg):
             return self.fresh_ptr(ast[2] == "as_mut_ptr"), "(.lit 0)", self.estride
+        if k == "cast" and self.is_self and ast[1] == ("path", "self") and ast[2].replace(" ", "") in ("*constSelf", "*mutSelf"):
+            # `self as *const Self` / `self as *mut Self`: the receiver reference itself, as a raw pointer
+            i = self.np
+            self.np += 1
+            self.stmts.append(".ptrSelf %d %s" % (i, "true" if ast[2].replace(" ", "") == "*mutSelf" else "false"))
+            return i, "(.lit 0)", ".n"
         if k == "cast":
             p, off, st = self.ptr(ast[1])
             ty = ast[2].replace(" ", "")
@@ -708,7 +718,7 @@ class LowerSliceViews:
         return b[2]
 
 
-LIB_VIEW_FUNCS = ["from_slice", "try_from_slice", "from_mut_slice", "chunks_from_slice", "chunks_from_slice_mut",
+LIB_VIEW_FUNCS = ["as_slice", "as_mut_slice", "from_slice", "try_from_slice", "from_mut_slice", "chunks_from_slice", "chunks_from_slice_mut",
                   "slice_from_chunks", "slice_from_chunks_mut"]
 
 
@@ -720,6 +730,11 @@ def lean_name(fn):
 def lower_lib_view_fn(ltoks, fname):
     f = find_fn(ltoks, fname)
     params, ret = fn_sig(f)
+    htxt = compact(f.header)
+    if not params and "(&mutself)" in htxt:
+        params = [("self", "&mutSelf")]
+    elif not params and "(&self)" in htxt:
+        params = [("self", "&Self")]
     if len(params) != 1:
         raise Cant("parameters of %s" % fname)
     lw = LowerSliceViews(params[0][0], params[0][1])
